@@ -18,7 +18,7 @@ ORACLE = ('store == engine on table set, row ids, non-private column set and eve
 ASSUMPTIONS = ['removing an already-missing row is a no-op for the store (SQLite DELETE), counted in classes',
                'defaults for columns absent from an AddRecord come from documentation/grist-data-format.md']
 BUDGET = {'quick': dict(examples=1100, shards=16, max_seconds=75),
-          'thorough': dict(examples=16000, shards=16, max_seconds=1800)}
+          'thorough': dict(examples=4000, shards=16, max_seconds=1800)}
 SHRINK_BUDGET = {'quick': 60, 'thorough': 400}
 
 
